@@ -257,7 +257,7 @@ def programs_for(tier, seed):
         ps = [CP.P1(), CP.P3(), CP.P8(), CP.P7(), CP.P11(), CP.P17(), CP.P18(), CP.P22(), CP.P23(), CP.P24(), CP.P29(), with_proactive(CP.P3())]
         ps += [CP.P3().restrict(control=False, calibration=True), CP.P3().restrict(control=True, calibration=False)]
         return ps
-    ps = CP.all_fixed() + [CP.P11(), CP.P18(), CP.P22(), CP.P23(), CP.P24(), with_proactive(CP.P3()), with_proactive(CP.P10()), with_proactive(CP.P7())]
+    ps = CP.all_fixed() + [CP.P11(), CP.P18(), CP.P22(), CP.P23(), CP.P24(), CP.P29(), with_proactive(CP.P3()), with_proactive(CP.P10()), with_proactive(CP.P7())]
     ps += CP.presence_variants(CP.P3())[1:] + CP.presence_variants(CP.P10())[1:]
     ps += [CP.random_program(seed, i) for i in range(10)]
     return ps
